@@ -356,22 +356,29 @@ Qed.
 (** ** lexer: whitespace between tokens is irrelevant *)
 Local Open Scope N_scope.
 
-Lemma skip_char_class c : ((c =? 32) || (c =? 9) || (c =? 10)) = true ->
+Lemma skip_char_class c : unicode_ws c = true ->
   classify c = CSkip /\ pred_break c = true.
 Proof.
-  intros H. assert (Hc : c = 32 \/ c = 9 \/ c = 10) by lia.
-  destruct Hc as [->|[->| ->]]; split; reflexivity.
+  unfold unicode_ws. intros H.
+  assert (Hw : is_whitespace c = true) by (unfold is_whitespace; lia).
+  split.
+  - unfold classify, CH_QMARK, CH_PLUS, CH_STAR, CH_BANG, CH_AND, CH_OR, CH_LPAREN, CH_RPAREN.
+    rewrite Hw.
+    repeat match goal with |- context [if (c =? ?k) then _ else _] =>
+      let E := fresh in destruct (c =? k) eqn:E; [exfalso; lia|] end.
+    reflexivity.
+  - unfold pred_break. rewrite Hw. reflexivity.
 Qed.
 
 Lemma plain_char_class c : plain_char c = true -> classify c = CStart /\ pred_break c = false.
 Proof.
   unfold plain_char. cbn [existsb]. intros H. split.
   - unfold classify, CH_QMARK, CH_PLUS, CH_STAR, CH_BANG, CH_AND, CH_OR, CH_LPAREN, CH_RPAREN,
-      memN, SKIP_WS. cbn [existsb].
+      is_whitespace.
     repeat match goal with |- context [if ?b then _ else _] =>
-      let E := fresh in destruct b eqn:E; [exfalso; lia|] end.
+      let E := fresh in destruct b eqn:E; [exfalso; unfold unicode_ws in *; lia|] end.
     reflexivity.
-  - unfold pred_break, is_whitespace, memN, RESERVED_CHARS. cbn [existsb]. lia.
+  - unfold pred_break, is_whitespace, memN, RESERVED_CHARS. cbn [existsb]. unfold unicode_ws in *. lia.
 Qed.
 
 Lemma single_class k c : tok_text k = [c] -> (forall s, k <> KPred s) ->
